@@ -92,6 +92,14 @@ def cold_reset():
     cm._dodecahedron = dd.DodecahedronProjection()
 
 
+def hot_reset():
+    """fresh singletons, then every cache filled with as many distinct keys as ordinary use produces."""
+    import a5
+    cold_reset()
+    for cid in a5.cell_to_children(0, 2):
+        a5.cell_to_lonlat(cid)
+
+
 def sweep(make_fn, label, prefix, max_events=4000, reset=None, same_call_interferer=None):
     """run A sequentially, then once per preemption point with B interleaved there; returns the first
     event index at which the result differs (or None).  With `reset`, every trial starts from cold caches;
